@@ -139,25 +139,22 @@ theorem frame_logNoSer (env : Env) (w : World) (t : String) (f : Fields) : Frame
   unfold World.logNoSer
   exact (frame_currentOrFresh w).trans ((frame_buildLog _ _ _ _).trans (frame_send env _ _))
 
-theorem frame_getFields (env : Env) (fuel : Nat) (w : World) (e : Exc) : Frame w (World.getFields env fuel w e).1 := by
-  induction fuel generalizing w e with
-  | zero => exact Frame.refl w
-  | succ n ih =>
-    unfold World.getFields
-    cases firstExtractor env (env.mro (e.cls env)) with
-    | none => exact Frame.refl w
-    | some f =>
-      have h0 : Frame w { w with extCalls := w.extCalls + 1 } :=
-        ⟨rfl, rfl, rfl, rfl, rfl, rfl, rfl, Nat.le_refl _, fun _ a h => ⟨a, h, rfl, rfl, Nat.le_refl _, id, rfl, rfl, rfl⟩,
-          Nat.le_refl _, List.prefix_refl _, List.prefix_refl _, List.prefix_refl _, id⟩
-      simp only
-      cases f e w.extCalls with
-      | ok fs => exact h0
-      | error e' => exact h0.trans ((ih _ _).trans (frame_logNoSer env _ _ _))
+theorem frame_getFields (env : Env) (w : World) (e : Exc) : Frame w (World.getFields env w e).1 := by
+  unfold World.getFields
+  cases firstExtractor env (env.mro (e.cls env)) with
+  | none => exact Frame.refl w
+  | some f =>
+    have h0 : Frame w { w with extCalls := w.extCalls + 1 } :=
+      ⟨rfl, rfl, rfl, rfl, rfl, rfl, rfl, Nat.le_refl _, fun _ a h => ⟨a, h, rfl, rfl, Nat.le_refl _, id, rfl, rfl, rfl⟩,
+        Nat.le_refl _, List.prefix_refl _, List.prefix_refl _, List.prefix_refl _, id⟩
+    simp only
+    cases f e w.extCalls with
+    | ok fs => exact h0
+    | error e' => exact h0.trans (frame_logNoSer env _ _ _)
 
 theorem frame_writeTraceback (env : Env) (w : World) (e : Exc) : Frame w (w.writeTraceback env e) := by
   unfold World.writeTraceback
-  exact (frame_getFields env _ w e).trans (frame_logNoSer env _ _ _)
+  exact (frame_getFields env w e).trans (frame_logNoSer env _ _ _)
 
 theorem frame_serializeFields (env : Env) (ss : List (String × Nat)) (w : World) (m : Msg) :
     Frame w (serializeFields env w ss m).1 := by
@@ -234,7 +231,7 @@ theorem frame_finishRec (env : Env) (w : World) (h : Nat) (exc : Option Exc) : F
       cases exc with
       | none => exact h0.trans ((frame_clock _).trans ((frame_nextLevel _ _).trans (frame_loggerWrite env _ _ _)))
       | some e =>
-        exact h0.trans ((frame_getFields env _ _ e).trans ((frame_clock _).trans ((frame_nextLevel _ _).trans (frame_loggerWrite env _ _ _))))
+        exact h0.trans ((frame_getFields env _ e).trans ((frame_clock _).trans ((frame_nextLevel _ _).trans (frame_loggerWrite env _ _ _))))
 
 end Sys
 
